@@ -1,6 +1,10 @@
 import CE.Cbe.Encode
 import CE.Cbe.Decode
 import CE.Canon
+import CE.Rules.Machine
+import CE.Rules.Table
+import CE.Chars.Chars
+import CE.Rules.Spec
 /-
   Line-protocol driver: executes the model's definitions on the operations the Go
   harness ran on the implementation.  Input line:  kind \t id \t op \t arg... \t => \t expected
@@ -47,8 +51,76 @@ def canonEq (args : List String) : String :=
     | _, _ => "BADINPUT"
   | _ => "BADINPUT"
 
+def rerrName : Rules.RErr → String
+  | .wrongType => "STRUCT" | .count => "STRUCT" | .tooManyEnds => "STRUCT"
+  | .recordTypeNotAllowed => "STRUCT" | .noRecordType => "STRUCT"
+  | .version => "VERSION"
+  | .limitDepth => "LIMIT:depth" | .limitObjects => "LIMIT:objects" | .limitArray => "LIMIT:array"
+  | .limitId => "LIMIT:id" | .limitRefs => "LIMIT:refs"
+  | .dupKey => "DUPKEY" | .dupRecordType => "DUPRT"
+  | .utf8 => "UTF8" | .chunkOverflow => "CHUNK" | .byteCount => "BYTECOUNT"
+  | .idEmpty => "ID" | .idChars => "ID"
+  | .markerDup => "MARKER" | .refType => "MARKER" | .forwardUnresolved => "MARKER"
+  | .apiMisuse => "API" | .arrayType => "ARRTYPE" | .runtime => "RUNTIME" | .unknownAct => "UNKNOWNACT"
+
+/-- cfg text: depth,objects,array,id,refs -/
+def parseCfg (s : String) : Option Rules.Cfg :=
+  match (s.splitOn ",").map String.toNat? with
+  | [some d, some o, some a, some i, some r] =>
+    some { maxContainerDepth := d, maxObjectCount := o, maxArrayBytes := a, maxIdLength := i, maxLocalRefCount := r }
+  | _ => none
+
+def rulesEnv (cfg : Rules.Cfg) : Rules.Env :=
+  { tbl := Rules.Model.ruleTable, cfg := cfg, identSafe := Chars.isIdentifierSafe }
+
+/-- RULES cfg evs  →  ACC|END:<rule-not-terminal>|REJ@i:CLASS  then the forwarded events -/
+def rulesOp (args : List String) : String :=
+  match args with
+  | [cfg, evs] =>
+    match parseCfg cfg, Ev.parseList evs with
+    | some c, some l =>
+      let (fwd, res, s) := Rules.run (rulesEnv c) Rules.RState.init l 0
+      let verdict := match res with
+        | some (i, e) => s!"REJ@{i}:{rerrName e}"
+        | none => if s.cur.rule == .terminal then "ACC" else "OPEN"
+      verdict ++ " " ++ Ev.listText fwd
+    | _, _ => "BADINPUT"
+  | _ => "BADINPUT"
+
+def specText (v : Spec.Verdict) : String :=
+  (match v.structural with
+   | none => "WF" | some none => "STRUCT@END" | some (some i) => s!"STRUCT@{i}")
+  ++ (if v.globalOK then "" else "+GLOBAL")
+
+def globalClass (c : String) : Bool := c == "MARKER"
+
+/-- WF.REL cfg evs implVerdict: does the implementation's verdict agree with the independent
+    grammar (C10: accepts exactly the well-formed documents, rejects at the first invalid event)? -/
+def wfRel (args : List String) : String :=
+  match args with
+  | [cfg, evs, impl] =>
+    match parseCfg cfg, Ev.parseList evs with
+    | some c, some l =>
+      let v := Spec.check { cfg := { maxArrayBytes := c.maxArrayBytes, maxIdLength := c.maxIdLength },
+                            identSafe := Chars.isIdentifierSafe } l
+      let ok : Bool :=
+        if impl == "ACC" then v.structural == none && v.globalOK
+        else if impl == "OPEN" then v.structural == some none
+        else match (impl.drop 4).toString.splitOn ":" with
+          | k :: cls =>
+            let cls := String.intercalate ":" cls
+            match k.toNat?, v.structural with
+            | some k, some (some j) => k == j || (k < j && globalClass cls)
+            | some _, some none => false
+            | some _, none => !v.globalOK && globalClass cls
+            | none, _ => false
+          | _ => false
+      if ok then "1" else "0 spec=" ++ specText v
+    | _, _ => "BADINPUT"
+  | _ => "BADINPUT"
+
 def ops : List (String × (List String → String)) :=
-  [("CBE.ENC", cbeEnc), ("CBE.DEC", cbeDec), ("CANON.EQ", canonEq)]
+  [("CBE.ENC", cbeEnc), ("CBE.DEC", cbeDec), ("CANON.EQ", canonEq), ("RULES", rulesOp), ("WF.REL", wfRel)]
 
 def splitArrow : List String → List String × String
   | [] => ([], "")
